@@ -24,7 +24,8 @@ var reachCutMu sync.Mutex
 
 // reachInfo: calls = executing fn can execute a call matching the predicate; makes = fn creates (or obtains from a
 // callee) function values whose execution can.
-type reachInfo struct{ calls, makes bool }
+// dyn: the function, or one it calls, calls a function value
+type reachInfo struct{ calls, makes, dyn bool }
 
 func resolveWrapper(fn *ssa.Function) *ssa.Function {
 	if fn != nil && strings.HasPrefix(fn.Synthetic, "bound method wrapper") {
@@ -177,11 +178,12 @@ func reachOf(fn *ssa.Function, pred func(*ssa.CallCommon) bool, memo map[*ssa.Fu
 		changed = false
 		for _, f := range order {
 			n, ri := nodes[f], cur[f]
-			calls, makes := ri.calls, ri.makes
+			calls, makes, dyn := ri.calls, ri.makes, ri.dyn || n.hasDynamic
 			for _, g := range n.callees {
 				x := get(g)
 				calls = calls || x.calls
 				makes = makes || x.makes
+				dyn = dyn || x.dyn
 			}
 			for _, g := range n.values {
 				x := get(g)
@@ -189,11 +191,13 @@ func reachOf(fn *ssa.Function, pred func(*ssa.CallCommon) bool, memo map[*ssa.Fu
 					makes = true
 				}
 			}
-			if n.hasDynamic && makes {
+			if dyn && makes {
+				// (also when the value is made here and called by a callee it is handed to, or that finds it where
+				// it was put: a table of steps walked by a helper)
 				calls = true
 			}
-			if calls != ri.calls || makes != ri.makes {
-				ri.calls, ri.makes = calls, makes
+			if calls != ri.calls || makes != ri.makes || dyn != ri.dyn {
+				ri.calls, ri.makes, ri.dyn = calls, makes, dyn
 				changed = true
 			}
 		}
